@@ -401,6 +401,11 @@ class Driver:
         uid = self.free_uid(col)
         if uid is None:
             return None
+        stems = [n[:-len(col.ext())] for n, m in col.members.items() if n.endswith(col.ext()) and m.uid != n[:-len(col.ext())] and all(c.isalnum() or c in "-_" for c in n[:-len(col.ext())])]
+        if stems and self.rng.random() < 0.35:
+            # a UID that spells the name of another member (whose own UID is a different one): the new member still gets a name of its own
+            uid = self.rng.choice(stems)
+            self.count("post_with_uid_spelling_a_member_name")
         body, uid, tok = self.body_for("x" + col.ext(), uid)
         self.w.post(col.path, body, W.CT[col.kind], uid=uid, token=tok)
         return [col.path]
@@ -502,6 +507,13 @@ class Driver:
         return [self.w.parent_of(path)]
 
     def op_put_missing_col(self):
+        if self.rng.random() < 0.45:
+            # a collection below a parent that does not exist: 409, and the parent does not come into being
+            parent = "/user/calendars/nosuch%d/" % self.rng.randint(1, 3)
+            kind = self.rng.choice(["calendar", "plain", "addressbook"])
+            self.w.mkcol(parent + "sub/", kind)
+            self.count("mkcol_below_missing_parent")
+            return ["/user/calendars/"]
         name = "x.ics"
         body, uid, tok = self.body_for(name, "u1")
         self.w.put("/user/calendars/nosuch%d/" % self.rng.randint(1, 3), name, body, op="put_missing_col", uid=uid, token=tok)
